@@ -491,7 +491,7 @@ def _raw_msg(args: dict) -> str:
     return "".join(_RAW_ATOMS[idx[i]] for i in range(args["n"]))
 
 
-@cond(q=120, t=400, encoded=[wire._write_error_stream, wire._write_error_batch, Message.add_to_metadata, md.encode_metadata, wire._read_batch_with_log_check],
+@cond(q=120, t=1500, encoded=[wire._write_error_stream, wire._write_error_batch, Message.add_to_metadata, md.encode_metadata, wire._read_batch_with_log_check],
       replay=lambda a: _unencodable_problem(_TEXT_CLASSES[a["c3"]], _raw_msg(a)), signature=lambda a, c: "C07:real-stream:unencodable-text-loses-the-error",
       bound="message = concatenation of <= %d atoms chosen by symbolic indices from %a (lone low/high surrogates included); nothing stubbed" % (_NRAW, _RAW_ATOMS))
 def error_text_without_utf8_encoding_still_arrives(c3: int, n: int, a0: int, a1: int, a2: int, a3: int) -> bool:
